@@ -671,12 +671,12 @@ spif_mbuff_sprintf(spif_mbuff_t self, spif_charptr_t format, ...)
 
     ASSERT_RVAL(!SPIF_MBUFF_ISNULL(self), FALSE);
     va_start(ap, format);
+    /* A NULL format is refused before anything is done to self. */
+    REQUIRE_RVAL(format != (spif_charptr_t) NULL, FALSE);
     if (self->buff != (spif_byteptr_t) NULL) {
         spif_mbuff_done(self);
     }
-    if (!format) {
-        return FALSE;
-    } else if (*format == 0) {
+    if (*format == 0) {
         return TRUE;
     } else {
         int c;
